@@ -21,6 +21,11 @@ CHECKS = {
          "Finite code space enumerated completely in the thorough tier (int and string round trips of every code against an independent decoder); every distinct tabulated operation x every spelling within 2 (quick) / 3 (thorough) deviations of the canonical form, x 125 lattice offsets x eps patterns, x three apply() forms in 7 cells.",
          "The documented ternary/duodecimal packing is the specification; spellings outside the grammar (e.g. two translation terms in one component) are not covered; string-built operations echo their source spelling by design.",
          "2/C11"),
+ "C14": ("model_checking",
+         "explicit-state BFS over call histories on real Crystal objects to closure of the reachable canonical state space; invariant = agreement with a freshly built crystal on every transition",
+         "Every history over 13 fixed-argument queries, both trigonal switches and deepcopy, on 4 structures (generated R-3 water in H and R axes, the same loaded from CIF text, bundled R3c example): the search runs until no new canonical state appears (digest of vars(obj) incl. all memo attributes), so histories of every length are covered, not just length 4; each of the ~2800 transitions is executed on the real object and compared with a fresh crystal, repeated, and checked not to modify the public state.",
+         "Digest soundness assumes methods only read state reachable from vars(obj); floats are rounded to 1e-9 in the digest (never in the oracle); queries are always issued with the same arguments, as the property stipulates.",
+         "2/C14"),
 }
 
 ALL = ["C%02d" % i for i in range(1, 21)]
